@@ -505,9 +505,23 @@ func (tr *twinRun) sample(extra map[string]interface{}) map[string]interface{} {
 // twin A and the session model: every entry it had to process has A's outcome
 // (entries an on-disk SM already contains are applied silently), and its user
 // SM was handed exactly the entries the model demands among those.
-func (tr *twinRun) checkIncarnation(t *rapid.T, r *replica, inc *incarnation, prefix string) {
+func (tr *twinRun) checkIncarnation(t *rapid.T, r *replica, inc *incarnation, prefix string, deliveriesFirst bool) {
 	who := fmt.Sprintf("%s/inc%d(%s,%s,snapshot %d)", r.name, inc.id, tr.kind, tr.variant, tr.ssIndex)
 	proc, _ := inc.processed()
+	deliveries := func() {
+		var want []upd
+		for _, u := range tr.model.applied {
+			if proc[u.Index] && u.Index > inc.openIndex {
+				want = append(want, u)
+			}
+		}
+		if sig, msg := checkDeliveries(inc.usm.pr().updates, want); sig != "" {
+			vfhelp.Fail(t, prefix+"-"+sig, "%s restored at %d, Open index %d: %s", who, inc.startAt, inc.openIndex, msg)
+		}
+	}
+	if deliveriesFirst {
+		deliveries()
+	}
 	for idx := uint64(1); idx <= tr.n; idx++ {
 		ao, co := tr.a.cur.node.byIndex[idx], inc.node.byIndex[idx]
 		if !proc[idx] {
@@ -526,14 +540,8 @@ func (tr *twinRun) checkIncarnation(t *rapid.T, r *replica, inc *incarnation, pr
 			vfhelp.Fail(t, prefix+"-outcome-differs", "%s: index %d %v: A %v, here %v", who, idx, tr.meta[idx-1], ao, co)
 		}
 	}
-	var want []upd
-	for _, u := range tr.model.applied {
-		if proc[u.Index] && u.Index > inc.openIndex {
-			want = append(want, u)
-		}
-	}
-	if sig, msg := checkDeliveries(inc.usm.pr().updates, want); sig != "" {
-		vfhelp.Fail(t, prefix+"-"+sig, "%s restored at %d, Open index %d: %s", who, inc.startAt, inc.openIndex, msg)
+	if !deliveriesFirst {
+		deliveries()
 	}
 }
 
